@@ -160,7 +160,10 @@ def build_records(case):
     L = case["L"]
     dt = case.get("dt", 1)
     recs = []
-    for ch, (wave, t0) in enumerate(case["pulses"]):
+    for ch, pulse in enumerate(case["pulses"]):
+        wave, t0 = pulse[0], pulse[1]
+        if len(pulse) > 2:
+            ch = pulse[2]  # a further pulse in a channel that already has one
         if wave is None:
             continue
         recs.append(mkpulse(list(wave), ch, t0, L, dt, case.get("blfrac", 0.0), case.get("rms", 0.0)))
@@ -380,7 +383,16 @@ def run_unit(u):
             for ch in range(nch):
                 n = rng.randint(1, 3 * L)
                 pulses.append([[rng.choice(ALPHABET) for _ in range(n)], t0 + rng.randint(0, 2 * L)])
-            case = {"L": L, "pulses": pulses, "dt": rng.choice([1, 2, 10]),
+            dt_ = rng.choice([1, 2, 10])
+            if rng.random() < 0.35:
+                # a second pulse in the same channel: on the record grid right behind the first one, directly
+                # after its last sample, or somewhere later
+                ch = rng.randrange(nch)
+                w0, p0 = pulses[ch][0], pulses[ch][1]
+                nf = (len(w0) + L - 1) // L
+                start = rng.choice([p0 + nf * L * dt_, p0 + len(w0) * dt_, p0 + nf * L * dt_ + rng.randint(1, 2 * L) * dt_])
+                pulses.append([[rng.choice(ALPHABET) for _ in range(rng.randint(1, 2 * L))], start, ch])
+            case = {"L": L, "pulses": pulses, "dt": dt_,
                     "blfrac": rng.choice([0.0, 0.25, 0.5, 0.75]),
                     "drop": rng.choice([None, None, 0, 1, 2, 3])}
             nt = check_case(acc, case, specs=THRESH_SPECS, exts=[rng.choice(EXTS), (rng.randint(0, 2 * L), rng.randint(0, 2 * L))])
